@@ -38,17 +38,15 @@
   if (in_kind) { chunk_source_init(&src, st_varint_chunk_source, &drv); } \
   else { octet_source_init(&src, st_varint_octet_source, &drv); }
 
-/* a sink that has already taken in_cnt octets and takes at most st_accept per
- * chunk call; refuses with st_rc if negative (not with the retry codes: that
- * loop belongs to sink_put_chunk, C17) */
+/* a sink that has already taken in_cnt octets; refuses with st_rc if negative
+ * (not with the retry codes: that loop belongs to sink_put_chunk, C17) */
 #define VI_SINK_STATE() \
   GHOST_HAVOC(); \
-  IN(size_t, in_cnt) IN(int, st_rc) IN(int, in_kind) IN(size_t, st_accept) \
+  IN(size_t, in_cnt) IN(int, st_rc) IN(int, in_kind) \
   ASSUME(in_cnt <= ST_VSINK_CAP - SPEC_VARINT_MAX64 && st_rc != -EINTR && st_rc != -EAGAIN); \
-  ASSUME(st_accept >= 1); \
   IN_MEM(in_cap, ST_VSINK_CAP) \
   struct st_vsink drv; \
-  memcpy(drv.cap, in_cap, ST_VSINK_CAP); drv.cnt = in_cnt; drv.rc = st_rc; drv.max_accept = st_accept; \
+  memcpy(drv.cap, in_cap, ST_VSINK_CAP); drv.cnt = in_cnt; drv.rc = st_rc; \
   Sink snk; \
   if (in_kind) { chunk_sink_init(&snk, st_varint_chunk_sink, &drv); } \
   else { octet_sink_init(&snk, st_varint_octet_sink, &drv); }
